@@ -389,6 +389,14 @@ class ZoneFn:
                 return None
             t = pzf.term_op(caps[int(k)])
             return pzf.upper_bound(t, cb) if t is not None else None
+        # `core::array::from_fn::<T, N, _>(|k| ..)`: the closure is called with k = 0 .. N - 1
+        if consumer is not None and sym == 'p2' and (consumer[1].get('callee') or '').endswith('array::from_fn'):
+            n = parse_array_len(pzf.body.local_ty(consumer[1]['dst']['l']))
+            if n is not None:
+                v = int(n) if n.isdigit() else (self.cg.get(n) if self.cg.get(n) is not None else pzf.cg.get(n))
+                if v is not None and v >= 1:
+                    return v - 1
+            return None
         # element parameter of a closure handed to an iterator adaptor over a container
         if consumer is not None:
             bi, t = consumer
